@@ -46,14 +46,15 @@ impl Template {
             ta_sep = if self.type_args.is_empty() { "" } else { ", " },
         )?;
         for arg in &self.args {
-            writeln!(
-                out,
-                "  {},",
-                arg.replace(
-                    " Content",
-                    " impl FnOnce(&mut W) -> io::Result<()>"
-                )
-            )?;
+            // Only an argument whose declared type is exactly `Content`
+            // (the text after the colon) is a block argument.
+            match arg.strip_suffix("Content") {
+                Some(head) if head.trim_end().ends_with(':') => writeln!(
+                    out,
+                    "  {head}impl FnOnce(&mut W) -> io::Result<()>,",
+                )?,
+                _ => writeln!(out, "  {arg},")?,
+            }
         }
         writeln!(
             out,
